@@ -4,6 +4,10 @@ import json, subprocess
 props = [json.loads(l) for l in open('/verif/properties.jsonl')]
 TECH = "contract-based deductive verification: VCs generated from the typed Go AST of /repo (govc), discharged by z3/cvc5; frame obligations by the goframe effect pass"
 claims = {
+ "C01": ("contracts on the decision functions every build goes through: obfuscatedObjectName against its decision table (what keeps its name: universe objects, unselected packages, exported methods, main/init/TestMain, test functions, non var/type/func objects; fields hashed with their struct; everything else with the object's own package), obfuscatedImportPath / obfuscatedPackageName, listPackage(p, own path) == p, the reflection pre-patch keeps the original source as a prefix",
+         "necessary conditions only: that the obfuscated program behaves like the original for every Go program, flag set and input is a statement about the Go toolchain and about transformGoFile's use of these decisions at every identifier, which is not under contract; assembly, linkname and -ldflags=-X handling are not covered"),
+ "C02": ("contracts on what garble itself puts into the build: the same naming decision table, the import-path decision, go invoked with -trimpath -buildvcs=false at both call sites (ground obligation on garbleBuildFlags), flagSetValue (used to blank -buildid), obfuscated sources written only under the hashed temp dir, call positions hashed under base name and offset",
+         "necessary conditions only: the bytes of the binary are produced by the Go compiler and the patched linker; nothing is proved about them, about comment stripping in printFile, or about the linker flags assembled in transformLink"),
  "C03": ("frame obligation 'deterministic' over every function reachable from the obfuscation pipeline (no global randomness, clock or map iteration order can reach the output) plus SMT determinism (self-composition) of the name hash",
          "necessary conditions: the Go toolchain's own determinism, process scheduling and the seeding in transformCompile are outside; ten map-order sites are listed known findings; three order assumptions are listed in trusted_base"),
  "C04": ("contracts on the reverse pipeline: reverseContent streams every line read, in order, through the replacer and writes exactly the replaced lines (ghost stream history, loop invariant); the exit status is success iff some line changed; the trees reverse inspects are the listed files in listed order with the source on disk as a prefix (parseFiles / transformerForListedPackage / reflectMainPrePatch); build and reverse both hash call positions under fmt.Sprintf(\"%s:%d\", base name, offset) with the package being processed",
